@@ -132,6 +132,8 @@ def _gen_track(rng):
     else:
         base = gen.ms_from_fields(y, rng.randint(1, 12), rng.randint(1, 28), rng.randint(0, 23), rng.randint(0, 59),
                                   rng.randint(0, 59), rng.choice([0, 0, 1, 500, 999, rng.randint(0, 999)]))
+    if rng.random() < 0.03:
+        base = 0            # special value that is a regular value: the track starts at 01/01/1970 00:00:00.000
     tms = [base]
     for s in steps:
         tms.append(tms[-1] + s)
@@ -307,6 +309,8 @@ def cases(chunk):
             c["pre"] = "speed_and_abs_curv"
         elif r < 0.26:
             c["pre"] = "plain_features"
+        elif r < 0.34:
+            c["pre"] = "retimed_in_place"
         yield c
 
 
@@ -564,6 +568,15 @@ def run_case(case, ctx):
         elif pre == "plain_features":
             track.createAnalyticalFeature("a", [float(i) for i in range(len(pts))])
             track.createAnalyticalFeature("idx2", 7.0)
+        elif pre == "retimed_in_place":
+            # call history: the track was logged with a clock one hour slow; its duration / order were looked at, then
+            # the caller corrected the timestamps IN PLACE (public fields) to the instants of the case
+            track = gen.make_track([tuple(p) for p in pts], [t - 3600000 for t in tms]) if tms[0] >= 3600000 else track
+            M.call(track.duration)
+            M.call(track.isSorted)
+            for i, o in enumerate(track.getObsList()):
+                t_ = o.timestamp
+                t_.year, t_.month, t_.day, t_.hour, t_.min, t_.sec, t_.ms = gen.fields_from_ms(tms[i])
     if (len(pts) + int(tms[-1] // 1000)) % 4 == 1:
         # the track to resample is itself a derived object (copy, full extract, concatenation of two parts ...)
         track, _how = gen.derive(track, (tms, mode))
